@@ -353,7 +353,11 @@ fn tree_case(rng: &mut Rng, obs: &mut Obs) {
         obs.add(&format!("g.{k}"), *v);
     }
     obs.count(&format!("g.tree_max_depth_{}", case.max_depth));
+    obs.count(if case.avoid_known { "tree.cases_avoiding_known_triggers" } else { "tree.cases_unrestricted" });
     obs.add("g.files", case.files.len() as u64);
+    if obs.verbose {
+        println!("MAIN:\n{}\nFILES: {:#?}\nINLINED:\n{}", case.main, case.files, case.inlined);
+    }
     let c = check_program(&case.files, &[], &case.main);
     add_flags(obs, &c.tex.flags);
     obs.count(&format!("m.max_file_depth_{}", c.tex.flags.max_file_depth.saturating_sub(1)));
@@ -383,6 +387,9 @@ fn tree_case(rng: &mut Rng, obs: &mut Obs) {
     }
     obs.add("tree.markers_checked", model_markers.len() as u64);
     obs.add("tree.probes_checked", c.tex.probes.len() as u64);
+    if case.avoid_known && (c.tex.flags.endinput_nonblank_rest > 0 || c.tex.flags.empty_file_inputs > 0) {
+        obs.inconclusive("tree: generator steering failed (a case meant to avoid the known triggers hit one)");
+    }
     let passed = report(obs, "tree", &case.files, &[], &case.main, &c);
     if matches!(c.verdict, Verdict::Pass) {
         // O2 explicitly (implied by O1 = O2, kept as an independent statement of the definition)
@@ -934,9 +941,9 @@ impl Monitor for M {
             Phase::new("readenum", readenum_count())
                 .batch(128)
                 .exhaustive("operation sequences of length 1..5 over {read,ifeof,closein,openin} x 12 file shapes"),
-            Phase::new("chain", tier.pick(800, 4000)).batch(8),
-            Phase::new("tree", tier.pick(24_000, 1_000_000)).batch(64),
-            Phase::new("read", tier.pick(16_000, 600_000)).batch(64),
+            Phase::new("chain", tier.pick(1200, 6000)).batch(8),
+            Phase::new("tree", tier.pick(80_000, 1_500_000)).batch(64),
+            Phase::new("read", tier.pick(50_000, 1_000_000)).batch(64),
         ]
     }
 
